@@ -2,48 +2,72 @@
 
 ENCODING_ASSUMPTIONS = [
     "pyvc encoding: Python int = mathematical integer; float modelled as real (exact n/N); str = SMT string of code points",
-    "pyvc encoding: dict/list/set values are modelled functionally (no aliasing between containers); objects live on a Boogie-style heap of per-field maps",
+    "pyvc encoding: dict/list/set values are modelled functionally (aliased containers are explicit heap cells); objects live on a Boogie-style heap of per-field maps",
     "pyvc extraction drops docstrings, comments, log_msg(...) calls and the 'verbose' parameter; everything else in a verified body is translated or the run fails",
     "solvers (z3 5.1.0 / 4.8.12, cvc5 1.0.3) are trusted; every 'sat' is additionally replayed natively where inputs are scalar",
     "not modelled: threads, signals, MemoryError/RecursionError, monkey-patching of sheXer",
 ]
 
-PROPS = {
-    "C20": {
-        "contracts": ["c20_config"],
-        "level": "proof",
-        "min_obligations": 300,
-        "explanation": "Loop-free validation code of Shaper.__init__ / shex_graph verified against the reference predicate of the statement over "
-                       "fully symbolic arguments (presence flags and values); one obligation per program path and exception edge, so the discharge "
-                       "is a complete proof over the whole argument product.",
-    },
-}
-
-HOOK_COMMITS = []
-NOT_APPLICABLE = {}
-
-MON = "bounded: run-time monitor of the composed pipeline against the oracle of lib/graphspec.py on enumerated small graphs + seeded random graphs (labelled bounded, never counted as proved)"
+PROPS = {}
+MON = ("bounded: run-time monitor of the composed pipeline against the oracle of lib/graphspec.py on enumerated small graphs + seeded random "
+       "graphs (labelled bounded, never counted as proved)")
 
 def _p(pid, contracts, bounded, explanation, level="other", **kw):
     d = {"contracts": contracts, "bounded": bounded, "level": level, "explanation": explanation}
     d.update(kw); PROPS[pid] = d
 
-_p("C17", ["c17_min_iri"], [], "longest_common_prefix (loop invariant, maximality), one step of the fold over instances and its frame are proved; "
-   "the cut back to a separator (_determine_suitable_iri_pattern uses a reversed string and a regex) and the examples bookkeeping are bounded stand-ins.")
-_p("C11", ["c11_shacl"], [], "Both serializers are verified against one reference table (cardinality -> min/max, statement type -> value restriction, direction -> path) "
-   "with an effect-trace contract on every triple handed to rdflib.Graph.add; the loops over shapes/statements and rdflib itself are assumed/bounded.")
-_p("C10", ["instances"], ["pipeline"], "Relevance tests and the per-triple step of pass 1 are proved with whole-view frames (node -> classes dictionary as a shared heap cell); "
-   "selector parsing / SPARQL evaluation and the stream-level composition are covered by the " + MON)
-_p("C16", ["instances"], ["pipeline"], "Counter invariant of the instance cap (every class counter <= limit, rejected exactly when full, early stop only when all target classes are full) is proved per step; "
-   "namespace filter and composition: " + MON)
-_p("C03", ["shexing"], [], "wip")
-_p("C04", ["shexing", "c20_config"], [], "wip")
-_p("C01", ["instances", "profiling", "shexing"], ["pipeline"], "wip")
-_p("C12", ["filtering", "c20_config"], ["pipeline"], "wip")
-_p("C02", ["filtering", "shexing"], ["pipeline"], "wip")
-for pid in ("C09", "C13", "C14"):
-    _p(pid, [], ["pipeline"], MON)
+_p("C01", ["instances", "profiling", "shexing", "filtering"], ["pipeline"],
+   "Deductive: step contracts with whole-view frames for both counting passes (node->classes; (node,property,kind)->occurrences incl. shape kinds; "
+   "(class,property,kind,cardinality)->#instances), frequency = n/N, every created statement carries its profile figure (loop invariants over the nested "
+   "profile dictionaries), and the selection/tuning stage never writes a count (frame obligations; the original figure is kept as first comment before the "
+   "probability is overwritten). The fold of the step contracts over the triple stream, the nested loops that enumerate (property, kind, cardinality) per "
+   "instance, and the rendering of figures into text are covered by the " + MON)
+_p("C02", ["filtering", "shexing"], ["pipeline"],
+   "Deductive: the threshold filter creates exactly one statement per candidate with frequency >= threshold (counting recurrence n_pass, boundary case kept) "
+   "and nothing below it; MergeableConstraints keeps one slot per member (counting invariant) and merge_group yields one constraint for the property; "
+   "_decide_best returns a member of its group. The two O(n^2) grouping loops and empty-shape removal are covered by the " + MON)
+_p("C03", ["shexing"], ["schemas"],
+   "Deductive: relaxation rule ('?' iff allow_opt and cardinality 1, else '*'; only below 100 %), exact-cardinality generalisation, '+' always offered and "
+   "preferred under keep_less_specific unless useless, with the mode off no cardinality is written. Conformance of every instance (ShEx semantics, "
+   "recursive references) is decided by an independent validator on schema-consistent graphs: bounded (schemas.py).")
+_p("C04", ["shexing", "c20_config"], ["schemas"],
+   "Deductive: exception-freedom (None dereference, missing keys, index range, call shapes, list.remove membership) of the node-kind merge under its "
+   "representation invariant, which the constructor is proved to establish; call shapes of shex_graph / profile_graph. Totality of the composed pipeline on "
+   "adversarial mixes x configurations x formats: bounded (schemas.py).")
+_p("C05", [], ["schemas"], MON)
+_p("C06", [], ["readers"], MON)
+_p("C07", [], ["readers"], MON)
+_p("C08", [], ["channels"], MON)
+_p("C09", [], ["pipeline"], MON)
+_p("C10", ["instances"], ["pipeline"],
+   "Deductive: relevance tests (predicate == instantiation property and (all classes or object among the target IRIs); model __eq__ methods inlined from the "
+   "real source) and the per-triple step of pass 1 with whole-view frames (node->classes dictionary as a shared heap cell); rdf:type is an ordinary property "
+   "under another instantiation property (_decide_type_elem). Selector parsing / SPARQL evaluation and the stream-level composition: " + MON)
+_p("C11", ["c11_shacl"], ["schemas"],
+   "Deductive: both serializers verified against one reference table (cardinality -> min/max, statement type -> value restriction, direction -> path) with an "
+   "effect-trace contract on every triple handed to rdflib.Graph.add, fresh blank nodes counted. Loops over shapes/statements and rdflib itself are assumed; "
+   "the two documents of one Shaper are compared after parsing: bounded (schemas.py).")
+_p("C12", ["filtering", "c20_config"], ["pipeline"],
+   "Deductive: the threshold is applied once, on raw candidates (filter contracts with the counting recurrence; >= from the statement), the range check of the "
+   "argument, frequency = n/N. Monotonicity over pairs of thresholds on whole runs: " + MON)
+_p("C13", [], ["pipeline"], MON)
+_p("C14", [], ["pipeline"], MON)
+_p("C15", [], ["schemas"], MON)
+_p("C16", ["instances"], ["pipeline"],
+   "Deductive: counter invariant of the instance cap (every class counter <= limit, an instantiation triple is rejected exactly when its class is full, early "
+   "stop only when the number of full classes reaches the number of target classes), proved per step with frames. Namespace filter and composition: " + MON)
+_p("C17", ["c17_min_iri"], ["schemas"],
+   "Deductive: longest_common_prefix (loop invariant, maximality), one step of the fold over instances with its frame, prefix transitivity lemma. The cut back "
+   "to a separator (reversed string + regex) and the examples bookkeeping: bounded (schemas.py).")
+_p("C18", ["c18_state", "c20_config"], ["history"],
+   "Deductive: buffer invariant of the ShExC serializer (sink text ++ pending lines grows by exactly the written line, across the 5000-line flush; file sink "
+   "assumed to append), cache invariant of Shaper.shex_graph (the shapes that are serialised were computed for this call's threshold). Call histories of "
+   "length <= 3, pairs of Shapers, outputs > 10 000 lines: bounded (history.py).")
+_p("C19", [], ["determinism"], MON)
+_p("C20", ["c20_config"], [],
+   "Loop-free validation code of Shaper.__init__ / shex_graph verified against the reference predicate of the statement over fully symbolic arguments "
+   "(presence flags and values); one obligation per program path and exception edge, so the discharge is a complete proof over the whole argument product. "
+   "Assumed: building the remote graph / parsing a well-formed shape map does not raise.", level="proof", min_obligations=300)
 
 HOOK_COMMITS = []
 NOT_APPLICABLE = {}
-_p("C18", ["c18_state", "c20_config"], [], "wip")
